@@ -226,6 +226,7 @@ func checkC16(p *Prog, res *Result, tier string) {
 	res.rule("C16-R6", "a Range answer is the backend's complete snapshot read: no key missing, duplicated or out of order because of partitioning or a retried scan (C13-R5/R6/R8)", 5)
 	res.rule("C16-R9", "a Range answer names the revision its data was read at: header and default read revision derive from one load of the committed revision taken before the scan (C06-R2), and the etcd translation hands the backend's header on", 6)
 	res.rule("C16-R10", "a watch starts exactly at the revision it names or is refused (so that the client re-lists): the resume revision derives from the request or the cache snapshot, and the empty-cache start uses the strict comparison (C05-R1/R10)", 4)
+	res.rule("C16-R11", "an etcd event that is rebuilt from another etcd event (the follower's proxy) keeps all of its fields, PrevKv included", 1)
 	res.rule("C16-R5", "the failure branch of update/delete answers with the key-value read after the failed write", 2)
 
 	txnM := p.ifaceMethod("go.etcd.io/etcd/api/v3/etcdserverpb", "KVServer", "Txn")
@@ -666,9 +667,11 @@ func checkC16(p *Prog, res *Result, tier string) {
 		}
 	}
 	checkShimHeaders(p, lr, res, "C16-R9")
+	checkEventCopiesAreComplete(p, res, "C16-R11")
 	// ---- R10: a watch that cannot be served from its start revision is refused, not started past an event (C05-R10) ----
 	for _, o := range p.subResult("C05", tier).Obls {
-		if o.Rule == "C05-R10" || o.Rule == "C05-R1" {
+		// (C05-R18: .. and what is filtered against the start revision is the revision of the change, as in etcd)
+		if o.Rule == "C05-R10" || o.Rule == "C05-R1" || o.Rule == "C05-R18" {
 			res.add("C16-R10", o.Rule+" "+o.Construct, o.Status, o.Pos, o.Detail)
 		}
 	}
@@ -1410,4 +1413,84 @@ func allAnon(f *ssa.Function) []*ssa.Function {
 		out = append(out, allAnon(a)...)
 	}
 	return out
+}
+
+// checkEventCopiesAreComplete (C16-R11): where the server layer builds an etcd event from another etcd event (the
+// follower's proxy hands on what it received from the leader), it copies every field: an event rebuilt from Type and
+// Kv alone loses PrevKv, and a DELETE reaches the client without the object that was deleted - which the leader's own
+// watch does deliver.
+func checkEventCopiesAreComplete(p *Prog, res *Result, rule string) {
+	n := 0
+	for _, f := range p.AllFuncs {
+		if f.Pkg == nil || f.Blocks == nil || !strings.HasPrefix(f.Pkg.Pkg.Path(), modPath+"/pkg/server") {
+			continue
+		}
+		k := 0
+		for _, b := range f.Blocks {
+			for _, ins := range b.Instrs {
+				al, ok := ins.(*ssa.Alloc)
+				if !ok {
+					continue
+				}
+				pt, ok := al.Type().Underlying().(*types.Pointer)
+				if !ok {
+					continue
+				}
+				nm, ok := pt.Elem().(*types.Named)
+				if !ok || nm.Obj().Name() != "Event" || nm.Obj().Pkg() == nil || !strings.HasSuffix(nm.Obj().Pkg().Path(), "mvccpb") {
+					continue
+				}
+				st := nm.Underlying().(*types.Struct)
+				// fields stored, and whether a stored value is the same-named field of another event
+				stored := map[string]bool{}
+				fromEvent := false
+				for _, ref := range *al.Referrers() {
+					fa, ok := ref.(*ssa.FieldAddr)
+					if !ok {
+						continue
+					}
+					for _, r2 := range *fa.Referrers() {
+						sv, ok := r2.(*ssa.Store)
+						if !ok || sv.Addr != ssa.Value(fa) {
+							continue
+						}
+						stored[fieldOf(fa).Name()] = true
+						if ld, ok := resolve(sv.Val).(*ssa.UnOp); ok && ld.Op == token.MUL {
+							if sfa, ok := ld.X.(*ssa.FieldAddr); ok && fieldOf(sfa).Name() == fieldOf(fa).Name() {
+								if spt, ok := sfa.X.Type().Underlying().(*types.Pointer); ok {
+									if snm, ok := spt.Elem().(*types.Named); ok && snm.Obj().Name() == "Event" {
+										fromEvent = true
+									}
+								}
+							}
+						}
+					}
+				}
+				if !fromEvent {
+					continue
+				}
+				n++
+				k++
+				construct := fmt.Sprintf("%s: event #%d rebuilt from another event", funcName(f), k)
+				var missing []string
+				for i := 0; i < st.NumFields(); i++ {
+					fn := st.Field(i).Name()
+					if !st.Field(i).Exported() || strings.HasPrefix(fn, "XXX_") {
+						continue
+					}
+					if !stored[fn] {
+						missing = append(missing, fn)
+					}
+				}
+				if len(missing) > 0 {
+					res.bad(rule, construct, p.pos(al.Pos()), "an etcd event is rebuilt from another one without its field(s) "+strings.Join(missing, ", ")+": a DELETE handed on this way carries no previous key-value, although the same watch on the leader does")
+				} else {
+					res.ok(rule, construct, p.pos(al.Pos()), "every field copied")
+				}
+			}
+		}
+	}
+	if n == 0 {
+		res.ok(rule, "events rebuilt from events", "-", "the server layer hands received events on as they are")
+	}
 }
